@@ -297,6 +297,90 @@ pub fn net_injection_probe(rng: &mut Rng) -> Vec<Finding> {
     f
 }
 
+// -------------------------------------------------------------------------------------------------
+// C02 on a timeline beyond 2^64 ns (the drivers above count nanoseconds in u64)
+// -------------------------------------------------------------------------------------------------
+
+struct FarApp {
+    log: Vec<(des::prelude::SimTime, des::prelude::SimTime)>,
+    rejected: u32,
+}
+struct FarEv {
+    at: des::prelude::SimTime,
+    follow: u8,
+}
+impl des::runtime::Application for FarApp {
+    type EventSet = FarEv;
+    type Lifecycle = ();
+}
+impl des::prelude::Event<FarApp> for FarEv {
+    fn handle(self, rt: &mut des::runtime::Runtime<FarApp>) {
+        use des::prelude::SimTime;
+        rt.app.log.push((self.at, SimTime::now()));
+        if self.follow > 0 {
+            // a relative and an absolute follow-up, both at / after the current time
+            let d = std::time::Duration::from_nanos(u64::from(self.follow) * 250_000_001);
+            let at = self.at + d;
+            let r = std::panic::catch_unwind(std::panic::AssertUnwindSafe(|| rt.add_event_in(FarEv { at, follow: self.follow - 1 }, d)));
+            if r.is_err() {
+                rt.app.rejected += 1;
+            }
+            let r = std::panic::catch_unwind(std::panic::AssertUnwindSafe(|| rt.add_event(FarEv { at: self.at, follow: 0 }, self.at)));
+            if r.is_err() {
+                rt.app.rejected += 1;
+            }
+        }
+    }
+}
+
+/// start time 18 446 744 000 s (about 73.7 s below 2^64 ns), events up to a few hundred seconds later: the clock
+/// equals the timestamps, never decreases, adds at / after now are accepted
+pub fn far_timeline_probe(rng: &mut Rng) -> Vec<Finding> {
+    use des::prelude::SimTime;
+    use des::runtime::Builder;
+    use std::time::Duration;
+    let start = SimTime::from_duration(Duration::from_secs(18_446_744_000));
+    let offsets: Vec<u64> = (0..3 + rng.usize_below(5)).map(|_| rng.below(400_000_000_000)).collect();
+    let mut f: Vec<Finding> = Vec::new();
+    let res = std::panic::catch_unwind(std::panic::AssertUnwindSafe(|| {
+        let mut b = Builder::seeded(1).quiet().start_time(start);
+        #[cfg(feature = "cq")]
+        {
+            b = b.cqueue_options(16, Duration::from_secs(1_000_000_000));
+        }
+        let mut rt = b.build(FarApp { log: Vec::new(), rejected: 0 });
+        for o in &offsets {
+            let at = start + Duration::from_nanos(*o);
+            rt.add_event(FarEv { at, follow: 2 }, at);
+        }
+        rt.run().map(|(app, end, _)| (app.log, app.rejected, end)).map_err(|_| ())
+    }));
+    match res {
+        Err(p) => f.push(("C02", "run-panicked", format!("a run starting at 18446744000 s unwound with: {}", vcommon::panic_message(&p)))),
+        Ok(Err(())) => f.push(("C02", "run-error", "a run starting at 18446744000 s returned an error".into())),
+        Ok(Ok((log, rejected, end))) => {
+            if let Some((at, now)) = log.iter().find(|(at, now)| at != now) {
+                f.push(("C02", "now-differs", format!("timeline beyond 2^64 ns: the handler of the event scheduled at {at} observed SimTime::now() = {now}")));
+            }
+            if let Some(w) = log.windows(2).find(|w| w[1].1 < w[0].1) {
+                f.push(("C02", "clock-decreased", format!("timeline beyond 2^64 ns: the clock went from {} to {}", w[0].1, w[1].1)));
+            }
+            if rejected > 0 {
+                f.push(("C02", "add-rejected", format!("timeline beyond 2^64 ns: {rejected} adds at / after the current time were rejected")));
+            }
+            if log.len() != offsets.len() * 5 {
+                f.push(("C02", "not-handled", format!("timeline beyond 2^64 ns: {} events handled, {} scheduled", log.len(), offsets.len() * 5)));
+            }
+            if let Some(last) = log.last() {
+                if end != last.0 {
+                    f.push(("C02", "end-time", format!("timeline beyond 2^64 ns: end time {end}, last event at {}", last.0)));
+                }
+            }
+        }
+    }
+    f
+}
+
 pub fn cmd_c02(args: &Args) -> Report {
     let mut rep = Report::new("C02");
     let mut rng = Rng::new(args.stream_seed("c02"));
@@ -308,6 +392,13 @@ pub fn cmd_c02(args: &Args) -> Report {
             6..=8 => 20 + rng.usize_below(max_events / 5 + 1),
             _ => max_events / 2 + rng.usize_below(max_events / 2 + 1),
         };
+        if i % 20 == 10 {
+            rep.count("runs_on_a_timeline_beyond_2_64_ns", 1);
+            let findings = far_timeline_probe(&mut rng);
+            if !report(&mut rep, "C02", findings, &json!({"driver": "desmon", "sub": "c02", "far_timeline_probe": true, "note": "re-run the check with the same seed"})) {
+                break;
+            }
+        }
         if i % 20 == 0 {
             rep.count("net_injection_probes", 1);
             let findings = net_injection_probe(&mut rng);
